@@ -5,15 +5,18 @@ import os
 import core
 from core import LeanDriver, canon
 import lib_store as L
-from gen import storeconsts
+from gen import storeconsts, storeflow
 
 ID = "C04"
-GENERATORS = [storeconsts.generate]
+GENERATORS = [storeconsts.generate, storeflow.generate]
 LEAN_MODULES = ["FimVerif.Proofs.C04"]
 P = "FimVerif.C04."
-THEOREMS = [P + t for t in ("inv_init", "inv_step", "inv_reachable", "ids_distinct_reachable", "frame_view", "frame",
-                              "frame_history", "import_content", "clone_eq", "clone_independent",
-                              "dinv_init", "dinv_step", "dinv_reachable", "dframe", "dclone_eq", "dhomed_reachable",
+THEOREMS = [P + t for t in ("flow_is_modelled", "inv_init", "inv_step", "inv_reachable", "ids_distinct_reachable", "step_import_wf",
+                              "delall_keeps_allocator", "frame_general", "frame_general_history", "affects_of_keepsGraphId",
+                              "frame_view", "frame", "frame_history", "import_content", "clone_eq", "clone_independent",
+                              "reimport_isolated", "foreign_node_refused",
+                              "dinv_init", "dinv_step", "dinv_reachable", "dids_distinct_reachable", "dframe",
+                              "ddelall_keeps_counters", "dclone_onto_existing_skips", "dclone_eq", "dhomed_reachable",
                               "dclone_eq_reachable", "dclone_independent")]
 TRUSTED_BASE = [
     "Model/Store.lean, Model/DStore.lean mirror NetworkXGraphStorage / NetworkXGraphStorageDisjoint / NetworkXPropertyGraph "
@@ -23,20 +26,30 @@ TRUSTED_BASE = [
     "an nx.Graph handed to add_graph has its edges between its own nodes (IGraph.WF); node/edge *order* in the model is "
     "insertion order and is not compared (both sides are sorted)",
     "gen/storeconsts.py: property-name constants and NO_UNSET_PROPERTIES read from abc_property_graph_constants.py",
+    "gen/storeflow.py: allocator and lookup facts (imports relabel from start_id / from 1, counters advance by the number of "
+    "nodes, del_graph / del_all_graphs keep the counters, present = holds nodes, which methods filter on GraphID) observed by "
+    "running the real classes on probe scenarios; the model reads the del_graph / del_all_graphs bookkeeping from the generated "
+    "flags and flow_is_modelled ties the rest",
     "locks are not modelled (C20): the harness replaces the stores' threading.Lock by a counting stand-in (lib_store.TolerantLock) "
     "so that the disjoint store's double release on a duplicate graph id (C20's defect) does not mask what an import did",
     "the disjoint model treats a missing dictionary entry and an empty graph alike (true of the code since /repo 7bd45c1)",
 ]
 ASSUMPTIONS = [
-    "operations do not write the GraphID property (re-homing a graph is C14's) and direct imports carry their own graph id "
-    "on every node (ABCGraphImporter.get_graph_id enforces it); merge_nodes is C05/C14's",
+    "an operation that writes the GraphID property (re-homing: update_node(s)_property / update_node_properties / initial "
+    "properties naming GraphID, a direct import whose nodes carry other ids, merge_nodes) is addressed to the graphs it names: "
+    "its target, every id it writes, the second graph of a merge (Lean: Op.affects; the general frame theorem and the oracle "
+    "use exactly this set; re-homing a whole graph is C14's)",
     "single-threaded histories (C20 covers schedules)",
 ]
 RULE = ("corpus first, then operation histories (<= 30 ops) over 2-4 graph ids and 4 node ids on both store flavours: add/delete node, add link, "
-        "single/bulk/whole-graph property updates and unsets, import (node keys colliding with stored internal ids, repeated "
-        "NodeIDs, missing NodeID), re-import, direct import, delete graph, clone; non-trivial = >= 2 graphs non-empty at some "
+        "single/bulk/whole-graph property updates and unsets (5% of them writing GraphID / NodeID), import (node keys colliding "
+        "with stored internal ids, repeated NodeIDs, missing NodeID), re-import, direct import, delete graph, clone, merge_nodes, "
+        "delete_all_graphs; 35% of the histories open with a structured scenario (re-import of a grown graph under its own id "
+        "behind another graph's id block, clone onto an existing id, delete_all_graphs followed by re-use of the ids, operations "
+        "addressed with a node id that only the clone source still has); non-trivial = >= 2 graphs non-empty at some "
         "point and >= 1 failing call; distinct by op-kind sequence; plus all histories of depth 3 (quick) / 4 (thorough) over a "
-        "12-operation alphabet on two graph ids (import, failing re-import, add/delete node, whole-graph update, delete graph, clone)")
+        "16-operation alphabet on two graph ids (import, grown re-import, failing re-import, add/delete node, whole-graph update, "
+        "delete graph, clone, delete_all_graphs, foreign node id)")
 
 CORPUS = os.path.join(core.CORPUS_DIR, "C04")
 
@@ -62,7 +75,8 @@ def histories(ctx, tag, n, length):
     rng = ctx.sub_rng(tag)
     hs = [(c["flavours"], c["history"]) for c in load_corpus()]
     for i in range(n):
-        hs.append((["shared", "disjoint"], L.gen_history(rng, rng.randint(6, length), ngraphs=rng.choice([2, 3, 3, 4]))))
+        hs.append((["shared", "disjoint"], L.gen_history(rng, rng.randint(6, length), ngraphs=rng.choice([2, 3, 3, 4]),
+                                                           scenario=0.35, merge=True, keys=0.05, delall=0.02)))
     return hs
 
 
@@ -173,23 +187,27 @@ def check_history(flavour, h, res, seed=0):
 
     for k, req in enumerate(h):
         op, tgt = req[0], L.target_of(req)
-        if not keeps_graph_id(req):
-            be.apply(req)
-            continue
+        aff = L.affected(req)           # None = every graph (delete_all_graphs)
+        plain = keeps_graph_id(req)     # writes no GraphID, no merge: the target-only checks below apply
+        universe |= be.graph_ids()
         before = {g: be.content(g) for g in universe}
         n_before = len(be.internal_ids())
-        size_tgt = len(before[tgt]["nodes"])
+        size_tgt = len(be.stored(tgt))
+        # target-only checks speak of graphs whose nodes all carry the graph's id (DStore.Homed; always so on the shared store)
+        plain = plain and be.homed(tgt) and (op != "clone" or be.homed(req[1]))
         rep = be.apply(req)
         after = {g: be.content(g) for g in universe | be.graph_ids()}
         res.count("%s:%s:%s" % (flavour, op, rep[0] if rep[0] == "ok" else rep[1]))
-        # (1) frame: every other graph is untouched, success or failure
+        # (1) frame: every graph the operation is not addressed to is untouched, success or failure
         for g in universe:
-            if g != tgt and after[g] != before[g]:
-                bad("frame:%s" % op, "%s addressed to %s changed graph %s" % (op, tgt, g), k,
+            if aff is not None and g not in aff and after[g] != before[g]:
+                bad("frame:%s" % op, "%s addressed to %s changed graph %s" % (op, sorted(aff), g), k,
                     expected=before[g], observed=after[g])
-        stray = [g for g in after if g not in universe and after[g]["nodes"]]
+        stray = [g for g in after if g not in universe and after[g]["nodes"] and (aff is None or g not in aff)]
         if stray:
             bad("frame:%s:stray" % op, "%s created nodes under unrelated graph id(s) %s" % (op, stray), k)
+        if op == "delete_all_graphs" and rep[0] == "ok" and be.internal_ids():
+            bad("delete_all_graphs:left-nodes", "delete_all_graphs left nodes behind", k)
         # (2) internal identities: nothing overwritten / shared
         ids = be.internal_ids()
         if len(set(ids)) != len(ids):
@@ -200,7 +218,7 @@ def check_history(flavour, h, res, seed=0):
             for key, G in be._graphs():
                 if len(G.nodes) and be.storage.graph_node_ids[key] <= max(G.nodes):
                     bad("ids:allocator", "graph_node_ids[%s] does not exceed a stored internal id" % key, k)
-        if rep[0] == "ok":
+        if rep[0] == "ok" and plain:
             if op in ("add_graph", "add_graph_direct"):
                 want = L.ig_content(req[2])
                 # onto a non-empty graph of the same id the shared store replaces and the disjoint store
@@ -227,8 +245,10 @@ def check_history(flavour, h, res, seed=0):
 
 
 def small_alphabet():
-    """12 operations over two graph ids for the exhaustive small-scope enumeration"""
+    """16 operations over two graph ids for the exhaustive small-scope enumeration"""
     two = {"nodes": [{"NodeID": "n1", "Class": "NetworkNode"}, {"NodeID": "n2", "Class": "Link"}], "edges": [[0, 1, {"Class": "has"}]]}
+    three = {"nodes": [{"NodeID": "n1", "Class": "NetworkNode"}, {"NodeID": "n2", "Class": "Link"}, {"NodeID": "n3", "Class": "Link"}],
+             "edges": [[0, 1, {"Class": "has"}], [1, 2, {"Class": "connects"}]]}
     bad = {"nodes": [{"NodeID": "n3", "Class": "Link"}, {"Class": "Link"}], "edges": [[0, 1, {"Class": "has"}]]}
     A = []
     for g, o in (("g1", "g2"), ("g2", "g1")):
@@ -239,6 +259,10 @@ def small_alphabet():
         A.append(["delete_graph", g])
         A.append(["clone", g, o])
     A[0] = ["add_graph", "g1", bad]      # one failing re-import (deletes the old graph of that id first)
+    A.append(["add_graph", "g1", three])             # grown re-import under its own id
+    A.append(["add_node", "g1", "n4", "Link", None])  # grows g1 behind g2's id block
+    A.append(["delete_all_graphs", "*"])
+    A.append(["delete_node", "g2", "n3"])             # n3 only ever exists in g1
     return A
 
 
